@@ -96,6 +96,8 @@ class MarketRun:
         self.M.clock_step()
         self.new_logs()
         self.compare("start")
+        for _ in range(int(self.case.get("pre_ticks", 0))):
+            self.op_tick()
 
     def op_submit(self, kind: str, is_buy: bool, price: Optional[float], vol: int, ttl: Optional[int], agent: int) -> None:
         m, M = self.m, self.M
@@ -495,7 +497,8 @@ P0S = [100.0, 300.0, 10.5, 1000.0, 7.25, 50.0]
 
 @st.composite
 def market_cases(draw, max_ops: int = 60, market_frac: int = 2, illegal: bool = False, few_levels: bool = False,
-                 batch_bias: bool = False, toggles: bool = True, max_volume: int = 10000, match_weight: int = 2):
+                 batch_bias: bool = False, toggles: bool = True, max_volume: int = 10000, match_weight: int = 2,
+                 pre_ticks: bool = False):
     tick = draw(st.one_of(st.sampled_from(TICKS), st.floats(min_value=1e-3, max_value=20.0, allow_nan=False).filter(lambda x: x > 0)))
     p0 = draw(st.one_of(st.sampled_from(P0S), st.floats(min_value=5.0, max_value=5000.0, allow_nan=False)))
     if p0 < 8 * tick:
@@ -525,4 +528,8 @@ def market_cases(draw, max_ops: int = 60, market_frac: int = 2, illegal: bool = 
                  st.tuples(st.just("FM"), st.booleans(), price, st.integers(1, 5))]
     n_ops = draw(st.integers(min_value=1, max_value=max_ops))
     ops = draw(st.lists(st.one_of(*alts), min_size=n_ops, max_size=n_ops))
-    return {"tick": tick, "p0": p0, "continuous": continuous, "running0": running0, "ops": [list(o) for o in ops]}
+    case = {"tick": tick, "p0": p0, "continuous": continuous, "running0": running0, "ops": [list(o) for o in ops]}
+    if pre_ticks:
+        # start the history shortly before one of the 100-step storage chunks ends
+        case["pre_ticks"] = draw(st.sampled_from([0, 0, 0, 97, 98, 99, 198, 199]))
+    return case
